@@ -214,6 +214,13 @@ def dimension_table(out: Outcome, rng) -> None:
             # a multi-column test sample handed to a UNIVARIATE detector falls under two clauses of the property ("differs from the reference: MismatchDimensionError",
             # "univariate detectors reject multi-column input with DimensionError"): either of the two named errors is the rejection the property asks for
             both = cls in UNIV and len(test_shape) == 2 and test_shape[1] > 1
+            if got is None and cls in UNIV and (ref_shape, test_shape) in (((6,), (5, 1)), ((6, 1), (5,))):
+                # a flat sample against a COLUMN VECTOR: both are one feature - the array rank differs, the dimensionality (number of columns) does not.  The current code
+                # rejects the pair (its fall-back compares `ndim`), the model's table has that row; a detector that treats (n, 1) as (n,) - the repair KF-C14-1 names - answers
+                # it: that is a difference from the model, not a rejection the property demands
+                out.mismatch(f"{cls.__name__}: reference {ref_shape} vs test {test_shape} gives a result; the model (and the current code) reject a flat sample against a column vector",
+                             {"detector": cls.__name__, "ref_shape": ref_shape, "test_shape": test_shape})
+                continue
             if not (got is not None and (issubclass(got, want) or (both and issubclass(got, DimensionError)))):
                 out.violation(f"{cls.__name__}: reference {ref_shape} vs test {test_shape} gives {got.__name__ if got else 'a result'} instead of {want.__name__}",
                               {"detector": cls.__name__, "ref_shape": ref_shape, "test_shape": test_shape})
